@@ -94,6 +94,13 @@ func checkEncode(fs *gen.FileSpec, labels map[string]int) (string, bool) {
 	if err != nil {
 		return "HARNESS: " + err.Error(), false
 	}
+	aliased := 0
+	if fs.Aliased {
+		// the File's arrays are overlapping views of one buffer
+		if aliased = prof.AliasArrays(f); aliased > 0 {
+			labels["arrays sharing a buffer"]++
+		}
+	}
 	if fs.Prelude != "" {
 		// an Encode call that fails comes first; what the next call writes
 		// must not depend on it
@@ -131,14 +138,23 @@ func checkEncode(fs *gen.FileSpec, labels map[string]int) (string, bool) {
 		}
 		return "", true
 	}
-	if msg := prof.SpareIntact(f); msg != "" {
-		return "Encode wrote into memory of the caller that is not part of the File: " + msg, false
+	if aliased == 0 {
+		if msg := prof.SpareIntact(f); msg != "" {
+			return "Encode wrote into memory of the caller that is not part of the File: " + msg, false
+		}
+	} else if fresh, err := gen.BuildFile(fs); err == nil {
+		if a, b := prof.FileValues(f), prof.FileValues(fresh); a != b {
+			return fmt.Sprintf("Encode changed the values of the File it was given (its arrays are views of one buffer):\nbefore:\n%s\nafter:\n%s", trunc(b), trunc(a)), false
+		}
 	}
 	data := buf.Bytes()
 	if msg := gen.CheckWriterKind(os.Getenv("VERIF_BUILD"), len(data)+len(fs.Slots)+1, data, func(w io.Writer) error {
 		again, err := gen.BuildFile(fs)
 		if err != nil {
 			return err
+		}
+		if fs.Aliased {
+			prof.AliasArrays(again)
 		}
 		return fit.Encode(w, again, order(fs.BigEndian))
 	}); msg != "" {
@@ -405,6 +421,67 @@ func TestC05(t *testing.T) {
 			}
 			rec.Eval("sparse", ns)
 			rec.NonTrivialEnum(ns)
+
+			// arrays that are views of one buffer: for every array field
+			// (of numbers) of every message a file type holds many of,
+			// three messages whose arrays - each shorter than the profile
+			// length, each full length, and each one element - are
+			// consecutive pieces buf[a:b] of one buffer
+			na := int64(0)
+			seenField := map[string]bool{}
+			for _, ft := range prof.FileTypes {
+				for _, s := range prof.Slots(ft) {
+					if !s.Multi {
+						continue
+					}
+					mi := prof.Table().Msgs[s.Msg]
+					for _, fi := range mi.BySIdx {
+						if fi == nil || !fi.Array || fitmodel.MustBase(fi.Base).String || fi.Kind != fitmodel.KindNative {
+							continue
+						}
+						key := fmt.Sprint(s.Msg, "/", fi.Name)
+						if seenField[key] {
+							continue
+						}
+						seenField[key] = true
+						lens := []int{1}
+						if fi.Length > 2 {
+							lens = append(lens, fi.Length-2)
+						}
+						if fi.Length > 0 {
+							lens = append(lens, fi.Length)
+						}
+						for li, l := range lens {
+							fs := &gen.FileSpec{Type: int(ft), Proto: 0x20, BigEndian: li%2 == 1, Aliased: true, FileId: gen.MsgSpec{Fields: map[string]fitmodel.Val{}}}
+							var msgs []gen.MsgSpec
+							for m := 0; m < 3; m++ {
+								elems := make([]fitmodel.Val, l)
+								for e := range elems {
+									if fitmodel.MustBase(fi.Base).Float {
+										elems[e] = fitmodel.F(float64(10*(m+1) + e))
+									} else if fitmodel.MustBase(fi.Base).Signed {
+										elems[e] = fitmodel.I(int64(10*(m+1) + e))
+									} else {
+										elems[e] = fitmodel.U(uint64(10*(m+1) + e))
+									}
+								}
+								msgs = append(msgs, gen.MsgSpec{Global: s.Msg, Fields: map[string]fitmodel.Val{fi.Name: fitmodel.Arr(elems)}})
+							}
+							fs.Slots = []gen.SlotSpec{{Name: s.Name, Msgs: msgs}}
+							na++
+							labels := map[string]int{}
+							if msg, ok := checkEncode(fs, labels); !ok {
+								rec.Fail("aliased", "", msg, fs)
+							}
+							if labels["arrays sharing a buffer"] == 0 {
+								rec.Note("aliased: " + key + ": arrays not aliased")
+							}
+						}
+					}
+				}
+			}
+			rec.Eval("aliased", na)
+			rec.NonTrivialEnum(na)
 
 			// a data section beyond 64 KiB and beyond 128 KiB (the encoder
 			// buffers all records and checksums them in one piece)
